@@ -511,6 +511,12 @@ def judge(rep, row, findings):
         return "ok"
     if v.startswith("known:"):
         for sig in v[6:].split("+"):
+            if sig == "PortZero":
+                # Latitude (DESIGN.md §4 C18/C15): an explicit port 0 is not a connectable TCP port; urllib3 reads it as
+                # "no port given" (`if not port`) and the pool it then uses is the one it really dials (80/443).  The
+                # statement does not say what port 0 must mean, so this class is Either: counted, never an alarm.
+                rep.extra["latitude_port_zero_read_as_unset"] = rep.extra.get("latitude_port_zero_read_as_unset", 0) + 1
+                continue
             f = known.match(findings, {"sig": sig})
             if f is None:
                 rep.violation("SharedAcrossSettings", f"deviation {sig} is not a recorded finding", case)
@@ -544,7 +550,8 @@ def run(rep):
     check_observable(c)
     settings = settings_of(c)
     findings = known.load("C18")
-    kd = sorted({f["match"]["sig"] for f in findings if f.get("match", {}).get("sig") in SIGS})
+    # PortZero is not a finding but a modelled latitude (see judge()): the Model always reads port 0 as "no port"
+    kd = sorted({f["match"]["sig"] for f in findings if f.get("match", {}).get("sig") in SIGS} | {"PortZero"})
     rep.rule = ("stage 2/3: every scenario TLC emits (keyword x ordered value pair x supply form x scheme x base x manager "
                 "kind; endpoint pairs over case / port variants) is executed on a real manager; a scenario is non-trivial "
                 "when its two requests differ in a keyword value or endpoint spelling (distinct tags); stage 4: the same "
@@ -690,7 +697,8 @@ def replay(rep, path):
     c = extract()
     meta = table_meta(c)
     findings = known.load("C18")
-    kd = sorted({f["match"]["sig"] for f in findings if f.get("match", {}).get("sig") in SIGS})
+    # PortZero is not a finding but a modelled latitude (see judge()): the Model always reads port 0 as "no port"
+    kd = sorted({f["match"]["sig"] for f in findings if f.get("match", {}).get("sig") in SIGS} | {"PortZero"})
     _init_worker(c, meta, kd)
     sc = case["scenario"]
     obs = execute(sc, _G["ks"])
